@@ -35,6 +35,8 @@ def run(scn, stats):
         if flow.problems:
             kind, detail = flow.problems[0]
             raise Violation(kind, {"detail": detail, "definition": drv.defn, "history": common.history_summary(_R(drv))})
+        if rec["after"] == "succeeded" and not flow.late_arrivals and (flow.open or drv.inflight):
+            raise Violation("succeeded-with-execution-in-flight", {"open": [list(k) for k in flow.open], "definition": drv.defn, "history": common.history_summary(_R(drv))})
         if rec["op"]["op"] == "done":
             a = rec["op"]["a"]
             if drv.dispatched and len(drv.inflight) >= 1:
